@@ -149,6 +149,11 @@ func runTrace(t *testing.T, drvPath string, infos []bpfnative.MapInfo, sp spec) 
 			tr.Burst, tr.MapRate = uint64(tb.BurstBytes), tb.RateBPS
 		}
 	}
+	// a burst handed to the control plane is part of the policy to be enforced (the download direction takes it as
+	// given; only a burst of 0 and the upload direction are computed by the manager: then the map's value counts)
+	if sp.Dir == "egress" && sp.Burst != 0 {
+		tr.Burst = uint64(sp.Burst)
+	}
 	for name, km := range maps {
 		if _, err := drv.Mirror(name, km, nil); err != nil {
 			t.Fatal(err)
@@ -253,7 +258,7 @@ func specs(tier string, seed int64) []spec {
 			sp.Rate, sp.Pattern = rates[i], "backlog-fine"
 		}
 		if i >= len(rates) && i < len(rates)+4 { // long small-packet traces against a minimal bucket (two packets)
-			sp.Rate, sp.Pattern, sp.Burst, sp.N, sp.Dir = []uint64{64_000, 10_000_000, 100_000_000, 800_000_000}[i-len(rates)], "starve", 128, 240, "egress"
+			sp.Rate, sp.Pattern, sp.Burst, sp.N, sp.Dir = []uint64{64_000, 10_000_000, 100_000_000, 800_000_000}[i-len(rates)], "starve", []uint32{128, 64, 128, 64}[i-len(rates)], 240, "egress" // 64: a bucket of exactly one packet
 		}
 		if i >= len(rates)+4 && i < len(rates)+4+len(driftRates) { // rounding drift: rates whose byte time is not a whole number of ns
 			sp.Rate, sp.Pattern, sp.Burst, sp.N, sp.Dir = driftRates[i-len(rates)-4], "drift", 128, driftN, "egress"
